@@ -5,3 +5,4 @@
 (declare-fun onlyVersion (T.versions.Version) T.versions.Set)              ; versions.Only
 (declare-fun hasErrorsOf (Slice) Bool)     ; Diagnostics.HasErrors() named as a function of the slice value (its elements are not modified in between)
 (declare-fun remotePkgStr (T.sourceaddrs.RemotePackage) String)   ; RemotePackage.String() named as a function of the value
+(declare-fun urlReparses (T.url.URL) Bool)   ; url.Parse(u.String()) yields a URL equal to u field by field (no dependency contract guarantees it)
